@@ -8,6 +8,7 @@ package linker
 import (
 	"hash"
 
+	"github.com/evanw/esbuild/internal/ast"
 	"github.com/evanw/esbuild/internal/config"
 	"github.com/evanw/esbuild/internal/fs"
 	"github.com/evanw/esbuild/internal/graph"
@@ -97,13 +98,17 @@ func VerifHashPreimage(items [][]byte, isUint32 []bool, uint32s []uint32) []byte
 // VerifFinalHashPreimage runs the real appendIsolatedHashesForImportedChunks for chunk `chunkIndex` over a
 // chunk graph given by cross-chunk imports, asset pieces (relative paths below the output directory) and
 // isolated hashes, with a recording hash, and returns the bytes that were fed to the hash.
-func VerifFinalHashPreimage(imports [][]uint32, assets [][]string, iso [][]byte, chunkIndex uint32) []byte {
+func VerifFinalHashPreimage(imports [][]uint32, dynamic [][]bool, assets [][]string, iso [][]byte, chunkIndex uint32) []byte {
 	c := &linkerContext{options: &config.Options{AbsOutputDir: "/out"}}
 	c.fs = fs.MockFS(map[string]string{}, fs.MockUnix, "/")
 	c.chunks = make([]chunkInfo, len(imports))
 	for i := range c.chunks {
-		for _, j := range imports[i] {
-			c.chunks[i].crossChunkImports = append(c.chunks[i].crossChunkImports, chunkImport{chunkIndex: j})
+		for k, j := range imports[i] {
+			kind := ast.ImportStmt
+			if dynamic[i][k] {
+				kind = ast.ImportDynamic
+			}
+			c.chunks[i].crossChunkImports = append(c.chunks[i].crossChunkImports, chunkImport{chunkIndex: j, importKind: kind})
 		}
 		for _, rel := range assets[i] {
 			index := uint32(len(c.graph.Files))
